@@ -861,6 +861,117 @@ def external_failure_rules(repo, chk):
     chk.floor("R-C16-7", 2)
 
 
+# ------------------------------------------------------------------------------------------------ R-C16-4 result tables, on a mock model
+def results_table_rules(repo, chk):
+    """R-C16-4 (T3, bounded to one mock model and three saved steps): initialize_results_dict, save_results (once per step, element values changing in between,
+    one junction isolated at one step) and get_results are run by the in-house interpreter (pandas replaced by sa/minipandas.py).  Every node table (head, demand,
+    pressure, leak_demand) then has one column per node and every link table (flowrate, velocity, status, setting) one per link, one row per reported time, indexed
+    by results.time, and each cell holds what the element had when that step was saved (pressure = head - elevation, 0 for isolated junctions and reservoirs)."""
+    import collections
+    import math
+    from ..concrete import World, stdlib_overrides, Namespace, ProgramError, NDArr
+    from ..minipandas import pandas_namespace, MiniFrame, Matrix
+    fns = {n: repo.func(HYD, n) for n in ("initialize_results_dict", "save_results", "get_results")}
+    chk.fn(*fns.values())
+    ov, _st = stdlib_overrides()
+    npn = ov["numpy"]
+
+    def array(x, dtype=None, copy=True):
+        x = list(x)
+        if x and all(isinstance(r, (list, tuple)) for r in x):
+            return Matrix(x)
+        if not x:
+            return Matrix([])
+        return NDArr(x, dtype)
+    ov["numpy"] = Namespace("numpy", **dict({k_: getattr(npn, k_) for k_ in dir(npn) if not k_.startswith("_")}, array=array))
+    ov["pandas"] = pandas_namespace()
+    world = World(repo, ov, fuel=20000000)
+    init, save, getr = (world.function(HYD, n) for n in ("initialize_results_dict", "save_results", "get_results"))
+
+    class Rec(object):
+        _sa_mock = True
+        _sa_foreign = True
+
+        def __init__(self, label, **kw):
+            self._label = label
+            self.__dict__.update(kw)
+
+        def __repr__(self):
+            return "<%s>" % self._label
+    J = collections.OrderedDict((n, Rec(n, head=0.0, demand=0.0, leak_demand=0.0, elevation=10.0 + i, _is_isolated=False)) for i, n in enumerate(("J1", "J2")))
+    T = collections.OrderedDict([("T1", Rec("T1", head=0.0, demand=0.0, leak_demand=0.0, elevation=30.0))])
+    R = collections.OrderedDict([("R1", Rec("R1", head=0.0, demand=0.0, leak_demand=0.0))])
+    P = collections.OrderedDict([("P1", Rec("P1", flow=0.0, diameter=0.3, status=1, roughness=100.0))])
+    HP = collections.OrderedDict([("HP", Rec("HP", flow=0.0, status=1, start_node_name="R1", end_node_name="J1", get_head_curve_coefficients=lambda: (50.0, 2.0, 1.5)))])
+    PP = collections.OrderedDict([("PP", Rec("PP", flow=0.0, status=1))])
+    V = collections.OrderedDict([("V1", Rec("V1", flow=0.0, diameter=0.2, status=2, setting=25.0))])
+    # the registries iterate in insertion order, which is NOT junctions + tanks + reservoirs (pipes + pumps + valves): labels and data must still agree
+    nodes = collections.OrderedDict([("R1", R["R1"]), ("J1", J["J1"]), ("T1", T["T1"]), ("J2", J["J2"])])
+    links = collections.OrderedDict([("V1", V["V1"]), ("P1", P["P1"]), ("PP", PP["PP"]), ("HP", HP["HP"])])
+    for o in nodes.values():
+        o.leak_status = True
+    it = lambda d: (lambda *a: list(d.items()))
+    wn = Rec("model", nodes=it(nodes), links=it(links), junctions=it(J), tanks=it(T), reservoirs=it(R), pipes=it(P), head_pumps=it(HP), power_pumps=it(PP), valves=it(V),
+             pumps=it(collections.OrderedDict(list(HP.items()) + list(PP.items()))), get_node=lambda n: nodes[n], get_link=lambda n: links[n],
+             num_nodes=len(nodes), num_links=len(links), node_name_list=list(nodes), link_name_list=list(links), junction_name_list=list(J), tank_name_list=list(T),
+             reservoir_name_list=list(R), pipe_name_list=list(P), head_pump_name_list=list(HP), power_pump_name_list=list(PP), valve_name_list=list(V),
+             pump_name_list=list(HP) + list(PP))
+    results = Rec("results", time=[], node=None, link=None, error_code=None)
+    want = {k: [] for k in ("head", "demand", "pressure", "leak_demand", "flowrate", "velocity", "status", "setting")}
+    try:
+        node_res, link_res = init(wn)
+        for step in range(3):
+            for i, (n, o) in enumerate(nodes.items()):
+                o.head, o.demand = 40.0 + 7 * step + i, 0.001 * (step + 1) * (i + 1)
+                o.leak_demand = 0.0005 * step * (i + 1) if n in J or n in T else 0.0
+            J["J2"]._is_isolated = step == 1
+            T["T1"].leak_status = step != 1           # the leak of the tank is switched off for one step: its leak_demand is saved all the same
+            for i, (n, o) in enumerate(links.items()):
+                o.flow = (-1) ** i * 0.01 * (step + 1) * (i + 1)
+                o.status = (step + i) % 3
+            V["V1"].setting = 25.0 + step
+            want["head"].append({n: o.head for n, o in nodes.items()})
+            want["demand"].append({n: o.demand for n, o in nodes.items()})
+            want["leak_demand"].append({n: (o.leak_demand if n not in R else 0.0) for n, o in nodes.items()})
+            want["pressure"].append({n: (0.0 if n in R or (n in J and o._is_isolated) else o.head - o.elevation) for n, o in nodes.items()})
+            want["flowrate"].append({n: o.flow for n, o in links.items()})
+            want["status"].append({n: o.status for n, o in links.items()})
+            want["velocity"].append({n: (abs(o.flow) * 4.0 / (math.pi * o.diameter ** 2) if n in P or n in V else 0) for n, o in links.items()})
+            want["setting"].append({n: (o.roughness if n in P else (o.setting if n in V else 1)) for n, o in links.items()})
+            save(wn, node_res, link_res)
+            results.time.append(3600 * step)
+        getr(wn, results, node_res, link_res)
+    except ProgramError as e:
+        if isinstance(e.exc, (AttributeError, NameError)):
+            raise ExtractError("the result bookkeeping needs something the mock model does not provide: %s (line %s)" % (e, e.lineno))
+        chk.bad("R-C16-4", "initialize_results_dict / save_results / get_results complete on a model with every element family", loc(fns["save_results"]), found="%s (line %s)" % (e, e.lineno))
+        return
+    for fam, tables, keys, names in (("node", results.node, ("head", "demand", "pressure", "leak_demand"), list(nodes)), ("link", results.link, ("flowrate", "velocity", "status", "setting"), list(links))):
+        chk.expect(isinstance(tables, dict) and set(tables) == set(keys), "R-C16-4", "results.%s holds the tables %s" % (fam, ", ".join(keys)), loc(fns["get_results"]),
+                   found=sorted(tables) if isinstance(tables, dict) else repr(tables))
+        if not isinstance(tables, dict):
+            continue
+        for k in keys:
+            fr = tables.get(k)
+            if not isinstance(fr, MiniFrame):
+                chk.bad("R-C16-4", "results.%s[%r] is a table indexed by the reported times with one column per %s" % (fam, k, fam), loc(fns["get_results"]), found=repr(fr))
+                continue
+            bad_ = []
+            if list(fr.index) != results.time:
+                bad_.append("index %s instead of results.time %s" % (list(fr.index), results.time))
+            if sorted(fr.columns) != sorted(names):
+                bad_.append("columns %s instead of %s" % (list(fr.columns), names))
+            else:
+                for t_, row in enumerate(want[k]):
+                    for n, v in row.items():
+                        got = fr[n].values[t_] if t_ < len(fr) else None
+                        if not (isinstance(got, (int, float)) and abs(got - v) <= 1e-12 * max(1.0, abs(v))):
+                            bad_.append("[%s, t=%d]: %r, the element had %r" % (n, results.time[t_], got, v))
+            chk.expect(not bad_, "R-C16-4", "results.%s[%r] is a table indexed by the reported times with one column per %s holding the saved values" % (fam, k, fam), loc(fns["get_results"]),
+                       "three steps saved on a mock model (2 junctions, one isolated at the second step, tank, reservoir, pipe, head pump, power pump, valve)", found=bad_[:4])
+    chk.floor("R-C16-4", 10)
+
+
 def run(repo, chk):
     external_failure_rules(repo, chk)
     rs = repo.func(CORE, "WNTRSimulator.run_sim")
@@ -1328,137 +1439,7 @@ def run(repo, chk):
         chk.expect(sts == {"error"}, "R-C16-2", "fsolve's ier != 1 is mapped to SolverStatus.error (edge at line %d)" % fh.line(t), loc(sh, gh.node_ast(t)), found=sorted(sts))
     chk.floor("R-C16-2", 15)
 
-    # ---------------------------------------------------------------- R-C16-4 families
-    NODE_KEYS = {"head", "demand", "pressure", "leak_demand"}
-    LINK_KEYS = {"flowrate", "velocity", "status", "setting"}
-    init = repo.func(HYD, "initialize_results_dict")
-    chk.fn(init)
-
-    def unroll(ex, gens, key, value, st):
-        """{key: value for target in <literal tuple>} evaluated item by item; None if the iterable is not a literal of constants"""
-        if len(gens) != 1 or gens[0].ifs:
-            return None
-        it = ex.ev(gens[0].iter, st)
-        if not (isinstance(it, (list, tuple)) and it and all(isinstance(x, (str, int)) for x in it)):
-            return None
-        out = {}
-        for x in it:
-            sub = st.fork()
-            ex.assign(gens[0].target, x, sub)
-            k = ex.ev(key, sub)
-            if not isinstance(k, (str, int)):
-                return None
-            out[k] = ex.ev(value, sub)
-        return out
-
-    class TableExec(SymExec):
-        def e_DictComp(self, n, st):
-            r = unroll(self, n.generators, n.key, n.value, st)
-            return r if r is not None else SymExec.e_DictComp(self, n, st)
-
-    def dict_hook(name, n, args, kwargs, st, ex, recv=None):
-        if name in ("OrderedDict", "dict", "collections.OrderedDict") and not kwargs:
-            if not args:
-                return {}
-            a = n.args[0] if len(n.args) == 1 else None
-            if isinstance(a, (ast.GeneratorExp, ast.ListComp)) and isinstance(a.elt, ast.Tuple) and len(a.elt.elts) == 2:
-                r = unroll(ex, a.generators, a.elt.elts[0], a.elt.elts[1], st)
-                if r is not None:
-                    return r
-            if len(args) == 1 and isinstance(args[0], dict):
-                return dict(args[0])
-        return NotImplemented
-    wn0 = init.args.args[0].arg if init.args.args else "wn"
-    outs = [o for o in TableExec(call_hook=dict_hook).run(init) if o.raised is None]
-    if not outs or any(not (isinstance(o.ret, (tuple, list)) and len(o.ret) == 2 and all(isinstance(x, dict) for x in o.ret)) for o in outs):
-        raise ExtractError("initialize_results_dict: the returned (node tables, link tables) pair could not be evaluated")
-    for k, (what, want, over) in enumerate((("node", NODE_KEYS, "nodes"), ("link", LINK_KEYS, "links"))):
-        okk = True
-        found = {}
-        for o in outs:
-            tab = o.ret[k]
-            found = {kk: (v.text if isinstance(v, Opaque) else str(v)) for kk, v in tab.items()}
-            pat = r"\bin %s\.(%s\(\)|%s_name_list)" % (re.escape(wn0), over, what)
-            if set(tab) != want or not all(re.search(pat, t) for t in found.values()):
-                okk = False
-        chk.expect(okk, "R-C16-4", "initialize_results_dict creates the four %s tables over all %s" % (what, over), loc(init), found=found)
-    svf = repo.func(HYD, "save_results")
-    chk.fn(svf)
-    if len(svf.args.args) < 3:
-        raise AnchorError("save_results: expected (wn, node tables, link tables)")
-    wn1, p_node, p_link = [a.arg for a in svf.args.args[:3]]
-    ex = SymExec()
-    fam_n = {"junctions", "tanks", "reservoirs"}
-    fam_l = {"pipes", "head_pumps", "power_pumps", "valves"}
-    seen = {}
-    pat = re.compile(r"^(%s|%s)\['(\w+)'\]\[(\w+)\]\.append\(" % (re.escape(p_node), re.escape(p_link)))
-    for o in ex.run(svf):
-        cnt = {}
-        loopvar = {}
-        for e in o.events:
-            if e[0] == "loop":
-                loopvar[e[2]] = [x.strip() for x in e[1].strip("()").split(",")]
-            if e[0] == "call" and ".append(" in e[1]:
-                m = pat.match(e[1])
-                if m and len(e) > 4 and e[4]:
-                    it = e[4][-1]
-                    fm = re.match(r"^%s\.(\w+)\(\)$" % re.escape(wn1), it)
-                    fam = fm.group(1) if fm else it
-                    if loopvar.get(it, [None])[0] != m.group(3):
-                        fam = "%s[indexed by %s]" % (fam, m.group(3))
-                    res_kind = "node_res" if m.group(1) == p_node else "link_res"
-                    cnt[(fam, res_kind, m.group(2))] = cnt.get((fam, res_kind, m.group(2)), 0) + 1
-        for k, v in cnt.items():
-            seen.setdefault(k, set()).add(v)
-        for fam, rk, ks in [(f, "node_res", NODE_KEYS) for f in fam_n] + [(f, "link_res", LINK_KEYS) for f in fam_l]:
-            for k in ks:
-                if (fam, rk, k) not in cnt:
-                    seen.setdefault((fam, rk, k), set()).add(0)
-    for fam, rk, ks in [(f, "node_res", NODE_KEYS) for f in sorted(fam_n)] + [(f, "link_res", LINK_KEYS) for f in sorted(fam_l)]:
-        for k in sorted(ks):
-            chk.expect(seen.get((fam, rk, k)) == {1}, "R-C16-4", "save_results appends exactly once to %s['%s'] for every element of wn.%s() on every path" % (rk, k, fam), loc(svf),
-                       "every element must get one value per table per saved time (one column per element, equal lengths)", expected="{1}", found=sorted(seen.get((fam, rk, k), {0})))
-    extra = {k[0] for k in seen} - fam_n - fam_l
-    chk.expect(not extra, "R-C16-4", "save_results appends only inside the seven element-family loops", loc(svf), found=sorted(extra))
-    gr = repo.func(HYD, "get_results")
-    chk.fn(gr)
-    if len(gr.args.args) < 4:
-        raise AnchorError("get_results: expected (wn, results, node tables, link tables)")
-    wn2, p_res, g_node, g_link = [a.arg for a in gr.args.args[:4]]
-    fg = Flow(gr)
-    frames = {g_node: [], g_link: []}
-    for i in sorted(fg.G.nodes):
-        for c in fg.own_calls(i):
-            if fg.call_target(c, i).split(".")[-1] != "DataFrame":
-                continue
-            data = next((k.value for k in c.keywords if k.arg == "data"), c.args[0] if c.args else None)
-            comps = [x for x in ast.walk(data) if isinstance(x, _COMPS)] if data is not None else []
-            which = None
-            for cp in comps:
-                elt = cp.elt if not isinstance(cp, ast.DictComp) else cp.value
-                root = elt
-                while isinstance(root, (ast.Subscript, ast.Attribute)):
-                    root = root.value
-                if isinstance(root, ast.Name) and root.id in frames and len(cp.generators) == 1:
-                    idx = unparse(elt.slice) if isinstance(elt, ast.Subscript) else None
-                    which = (root.id, cp, idx == unparse(cp.generators[0].target))
-            if which is None:
-                continue
-            rname, cp, by_elem = which
-            it = fg.rtext(cp.generators[0].iter, i)
-            cols = next((fg.rtext(k.value, i) for k in c.keywords if k.arg == "columns"), None)
-            index = next((fg.rtext(k.value, i) for k in c.keywords if k.arg == "index"), None)
-            frames[rname].append((i, it, cols, index, by_elem))
-    for rname, rk, fams, alln in ((g_node, "node_res", {"junction", "tank", "reservoir"}, "node"), (g_link, "link_res", {"pipe", "head_pump", "power_pump", "valve"}, "link")):
-        fr = frames[rname]
-        fam_ok = bool(fr) and all(set(re.findall(r"\b%s\.(\w+)_name_list" % re.escape(wn2), it)) in (fams, {alln}) for _, it, _, _, _ in fr)
-        if rk == "node_res":
-            chk.expect(fam_ok, "R-C16-4", "get_results orders node columns as junctions + tanks + reservoirs (all node families)", loc(gr), found=[it for _, it, _, _, _ in fr])
-        else:
-            chk.expect(fam_ok, "R-C16-4", "get_results orders link columns as pipes + head pumps + power pumps + valves (the saved families)", loc(gr), found=[it for _, it, _, _, _ in fr])
-        okdf = bool(fr) and all(by_elem and cols == it and index == "%s.time" % p_res for _, it, cols, index, by_elem in fr)
-        chk.expect(okdf, "R-C16-4", "get_results builds %s tables with data and column labels from the same name list, indexed by results.time" % rk, loc(gr), found=[(it, cols, index) for _, it, cols, index, _ in fr])
-    chk.floor("R-C16-4", 2 + 28 + 1 + 4)
+    results_table_rules(repo, chk)
 
     # ---------------------------------------------------------------- R-C16-6 a step that was solved is never lost to a crash in the bookkeeping
     # (a) the solver helper may return None as iteration count (scipy solvers): run_sim must not hand it to a format spec
